@@ -20,6 +20,7 @@ the SAME (model, seed) — `a1`, `a2` (back to back in one process), `b` (after 
 import Desverif.Model.Repro
 import Driver.Common
 import Std.Data.HashMap
+import Std.Data.HashSet
 namespace Driver.C04
 open Repro Driver
 
@@ -31,6 +32,8 @@ def parseStep (t : String) : Option Step :=
   | ["sched", d, k] => do let d ← d.toNat?; let k ← k.toNat?; pure (.sched d k)
   | ["spawn", t] => some (.spawn t)
   | ["sleep", d] => d.toNat?.map Step.sleep
+  | ["shut"] => some .shut
+  | ["restart", d] => d.toNat?.map Step.restart
   | ["sel", ds] =>
     let v := (ds.splitOn ",").map String.toNat?
     if v.all Option.isSome && (v.length == 2 || v.length == 3) then some (.sel (v.map (·.getD 0))) else none
@@ -123,9 +126,15 @@ def streamOf (sc : Script) (r : RunObs) : Except String (List Nat) := do
       | _ => pure ()
   let mut out : Array Nat := #[]
   let mut ending := false
+  let mut started : Std.HashSet String := {}
   for o in r.obs do
     if o.what == "end" then ending := true
-    if o.what == "start" then out := out.push 0
+    -- the `RngSeed` of a tokio runtime: drawn at a module's first event and by every `ModuleRef::reset`
+    -- (the value itself is not observable; the `select!` start indices it determines are)
+    if o.what == "start" && !started.contains o.path then
+      started := started.insert o.path
+      out := out.push 0
+    else if o.what == "reset" then out := out.push 0
     else if o.what == "draw" || o.what == "draw32" then out := out.push (o.args.headD 0)
     else if o.what == "sp" then out := out.push (o.args.headD 0)
     else if o.what == "send" then
@@ -267,7 +276,18 @@ def main (stdin : IO.FS.Stream) : IO Unit := do
         (match sc.tasks.find? (·.1 == o.who) with
          | some t => hasDecisiveSel t.2
          | none => false))
-      let nt := sc.created.length ≥ 2 && jit ≥ 1 && draws ≥ 1 && remote ≥ 1 && decisive && wantChild
-      IO.println s!"ok {id} nt={if nt then 1 else 0} mods={sc.created.length} obs={a1.obs.size} draws={draws} jitter={jit} selpolls={cnt "sp"} sels={cnt "sel"} msgs={cnt "msg"} wakes={cnt "woke"} unfinished={a1.drops.size} child={if wantChild then 1 else 0} stream={stream.length}"
+      -- a decisive select! completed by a module after one of its `reset`s (incarnation >= 1)
+      let mut resetSeen : Std.HashSet String := {}
+      let mut decisiveLater := false
+      for o in a1.obs do
+        if o.what == "reset" then resetSeen := resetSeen.insert o.path
+        if o.what == "sel" && resetSeen.contains o.path then
+          match sc.tasks.find? (·.1 == o.who) with
+          | some t => if hasDecisiveSel t.2 then decisiveLater := true
+          | none => pure ()
+      let restarts := cnt "reset"
+      let nt := sc.created.length ≥ 2 && draws ≥ 1 && remote ≥ 1 && decisive && wantChild &&
+        (jit ≥ 1 || decisiveLater)
+      IO.println s!"ok {id} nt={if nt then 1 else 0} mods={sc.created.length} obs={a1.obs.size} draws={draws} jitter={jit} selpolls={cnt "sp"} sels={cnt "sel"} msgs={cnt "msg"} wakes={cnt "woke"} unfinished={a1.drops.size} child={if wantChild then 1 else 0} stream={stream.length} resets={restarts} laterdecisive={if decisiveLater then 1 else 0}"
 
 end Driver.C04
